@@ -62,6 +62,20 @@ type AssignItem struct {
 	Text  string
 }
 
+// CaseGroup is a proof hint: the function is verified once per alternative (cross product over
+// groups); each alternative is a conjunction of atoms (optionally negated with a leading "!") that
+// are assumed, and an extra obligation shows that the alternatives of a group are exhaustive.
+type CaseGroup struct {
+	Name string
+	Alts [][]*CaseAtom
+	Line int
+}
+
+type CaseAtom struct {
+	Neg bool
+	Cl  *Clause
+}
+
 type SplitHint struct {
 	Label string
 	Base  *Clause // int expression evaluated at the back edge
@@ -88,6 +102,7 @@ type Contract struct {
 	Assigns  []*AssignItem
 	HasAssigns bool
 	Loops    map[int]*LoopSpec
+	Cases    []*CaseGroup
 	Inline   map[string]bool // callee keys to inline at call sites
 	Trusted  bool            // body not verified (assumed contract)
 	External bool            // function of another package (assumed contract)
@@ -120,7 +135,7 @@ type ContractSet struct {
 	Errs  []string
 }
 
-var clauseKeywords = map[string]bool{"func": true, "iface": true, "props": true, "requires": true, "ensures": true,
+var clauseKeywords = map[string]bool{"cases": true, "func": true, "iface": true, "props": true, "requires": true, "ensures": true,
 	"assigns": true, "loop": true, "inline": true, "trusted": true, "lemma": true, "call": true, "unproved": true}
 
 // ParseContractFile reads the //@ lines of one contract file.
@@ -237,6 +252,31 @@ func ParseContractFile(path, pkgPath string, cs *ContractSet) {
 						lastAssign = a
 					}
 				}
+			case "cases":
+				// cases name: a && !b | c && d | ...
+				j := strings.Index(rest, ":")
+				if j < 0 {
+					addErr(ln, "cases needs: <name>: alt | alt ...")
+					continue
+				}
+				cg := &CaseGroup{Name: strings.TrimSpace(rest[:j]), Line: ln}
+				for _, alt := range splitTop(rest[j+1:], '|') {
+					var atoms []*CaseAtom
+					for _, a := range strings.Split(alt, "&&") {
+						a = strings.TrimSpace(a)
+						if a == "" {
+							continue
+						}
+						neg := false
+						if strings.HasPrefix(a, "!(") && strings.HasSuffix(a, ")") {
+							neg = true
+							a = a[2 : len(a)-1]
+						}
+						atoms = append(atoms, &CaseAtom{Neg: neg, Cl: &Clause{Kind: "requires", Label: "case-" + cg.Name, Text: a, Line: ln, File: path}})
+					}
+					cg.Alts = append(cg.Alts, atoms)
+				}
+				cur.Cases = append(cur.Cases, cg)
 			case "inline":
 				for _, f := range strings.Fields(strings.ReplaceAll(rest, ",", " ")) {
 					cur.Inline[f] = true
@@ -1079,6 +1119,13 @@ func GenerateWrappers(pkg *packages.Package, cs *ContractSet) (string, []string)
 		for _, cl := range c.Requires {
 			g.compileClause(c, cl, si, fpos, "pre", "bool")
 		}
+		for _, cg := range c.Cases {
+			for _, alt := range cg.Alts {
+				for _, a := range alt {
+					g.compileClause(c, a.Cl, si, fpos, "pre", "bool")
+				}
+			}
+		}
 		for _, cl := range c.Ensures {
 			g.compileClause(c, cl, si, fpos, "post", "bool")
 		}
@@ -1209,6 +1256,9 @@ func (g *genCtx) compileIface(c *Contract) {
 	// iface io.Reader.Read(p []byte) (n int, err error): clauses see "self" plus the declared names.
 	j := strings.LastIndex(c.Key, ".")
 	ifaceName := c.Key[:j]
+	if strings.HasPrefix(ifaceName, g.pkg.Name+".") {
+		ifaceName = strings.TrimPrefix(ifaceName, g.pkg.Name+".")
+	}
 	// generate wrappers directly by text: parameters are self + sig params (+ results for ensures)
 	params, results, err := splitSig(c.Sig)
 	if err != nil {
